@@ -185,16 +185,6 @@ example :
       .ev (.data [97, 98] false true), .read 4, .read 4]).1
     = [some ([97, 98], none), some ([], some .unexpectedEOF)] := by decide
 
-theorem evsOf_map_ev (evs : List H2XEv) : evsOf (evs.map H2XOp.ev) = evs := by
-  induction evs with
-  | nil => rfl
-  | cons e t ih => simp [evsOf, ih]
-
-theorem outOf_run_evs (x : H2X) (evs : List H2XEv) : outOf (x.run (evs.map .ev)).1 = [] := by
-  induction evs generalizing x with
-  | nil => rfl
-  | cons e t ih => simp only [List.map_cons, H2X.run]; exact ih _
-
 /-- **h2_ok_complete.** What the model-judged lane compares against: if, after the events, the
 call and a draining caller end in success, then some frame carried END_STREAM, the body is a
 prefix of the DATA sent, and it has exactly the declared length if one was declared. -/
@@ -280,75 +270,6 @@ theorem h2_interim_transparent (s : H2Stream) (fs : Fields) (sv : Bytes) (code :
   have : s = { s with pastHeaders := false } := by cases s; simp_all
   rw [this]
   simp [H2Stream.processHeaders, H2Stream.handleResponse, a, b, c, hs, hemp, hc, h1.1, h1.2, hnot]
-
-theorem head_no_body_run (ops : List H2XOp) : ∀ (x : H2X) (O D : Bytes), Inv x.st O D → x.st.isHead = true →
-    (∀ r, x.st.res = some r → r.body = .noBody) →
-    ∀ r, (x.run ops).2.st.res = some r → r.body = .noBody := by
-    induction ops with
-    | nil => intro x O D _ _ h r hr; exact h r hr
-    | cons o ops ih =>
-      intro x O D hi hh h
-      cases o with
-      | closeBody =>
-        simp only [H2X.run]
-        exact ih x.closeBody O D hi.closeBody (by simpa [H2X.closeBody] using hh)
-          (by simpa [H2X.closeBody] using h)
-      | read k =>
-        cases hr : x.st.read k with
-        | none => rw [run_read_none _ _ _ hr]; exact ih x O D hi hh h
-        | some v =>
-          obtain ⟨⟨d, e⟩, st'⟩ := v
-          rw [run_read_some _ _ _ _ _ hr]
-          obtain ⟨hinv, hsame⟩ := hi.read k d e st' hr
-          exact ih { x with st := st' } _ D hinv (by simpa [hsame.isHead] using hh)
-            (by simpa [hsame.res] using h)
-      | ev e =>
-        simp only [H2X.run]
-        refine ih (x.step e) O _ (hi.step e) (by rw [(Mono.step hi e).isHead]; exact hh) ?_
-        intro r hr
-        cases hr0 : x.st.res with
-        | some r0 =>
-          have := (Mono.step hi e).res r0 hr0
-          rw [this] at hr; simp at hr; subst hr; exact h r0 hr0
-        | none =>
-          rw [step_st] at hr
-          cases e with
-          | headers fs es =>
-            simp only [] at hr
-            have hnf := processHeaders_nf x.st fs es
-            generalize x.st.processHeaders fs es = s' at hnf hr
-            cases hnf with
-            | ignored _ => rw [hr0] at hr; simp at hr
-            | rejected s1 e hc _ _ _ => simp [hc.res, hr0] at hr
-            | connErr s1 hc _ _ _ _ => simp [hc.res, hr0] at hr
-            | trailers s1 hc _ _ _ _ _ => simp [hc.res, hr0] at hr
-            | interim s1 hc _ _ _ _ _ => rw [hc.res, hr0] at hr; simp at hr
-            | bodiless s1 r' hc _ _ _ _ _ _ hnb =>
-              -- `handleResponse` on a HEAD stream builds `noBody`
-              have hb := hnb hh
-              split at hr
-              · simp at hr; subst hr; exact hb
-              · simp at hr; subst hr; exact hb
-            | piped s1 r' hc _ _ _ _ _ hhd _ => rw [hh] at hhd; simp at hhd
-          | data p pad es =>
-            simp only [] at hr
-            have := (Mono.processData x.st p pad es)
-            have hnf := processData_nf x.st p pad es
-            generalize x.st.processData p pad es = s' at hnf hr
-            cases hnf with
-            | ignored _ => rw [hr0] at hr; simp at hr
-            | rejected e _ _ => simp [hr0] at hr
-            | empty _ _ _ _ => split at hr <;> simp [hr0] at hr
-            | accepted _ _ _ _ _ => split at hr <;> simp [hr0, pushData] at hr
-          | rst c =>
-            simp only [H2Stream.processRst] at hr
-            split at hr <;> simp [hr0] at hr
-          | connLost => simp [hr0] at hr
-          | goAway last code =>
-            simp only [] at hr
-            split at hr
-            · simp [hr0] at hr
-            · split at hr <;> simp [hr0] at hr
 
 /-- A 204 / 304 response that ends on its HEADERS frame has no body that could be missing,
 whatever Content-Length it declares (`bodyAllowedForStatus`). -/
